@@ -98,7 +98,11 @@ PROPS = {
                  "pointers recursively, slices hold exactly the encoded elements - appended in the repeated form -, maps merged by key). "
                  "Invariant after every step: every target equals its model (nil and empty slices interchangeable); every decodeFresh equals "
                  "the normalised value and the decode of a brand-new instance. Non-trivial = a decodeInto whose prior and data are both non-zero, "
-                 "or a decodeFresh after >=2 earlier decodes of that type; distinct by hash of the whole operation sequence."),
+                 "or a decodeFresh after >=2 earlier decodes of that type; distinct by hash of the whole operation sequence. Further operations: "
+                 "decodeCorrupt (truncated / damaged input, result ignored) and reslice (the caller shortens a target's slices, keeping their "
+                 "capacity). A second state machine does the same for the JSON-any codecs: 2-8 decodes of generated map[string]any / []any trees "
+                 "(few distinct keys, nil elements) into one re-used target at top level or in a struct field, with reslice and fresh-target "
+                 "steps; model: an array holds exactly the decoded elements, an object keeps its members and takes the decoded ones."),
         "jobs": [{"run": "^TestC10", "shards": 48, "quick_shards": 4, "timeout_quick": 600, "timeout_thorough": 3000}],
     },
     "C12": {
@@ -263,9 +267,11 @@ PROPS = {
                  "the struct had before and distinct within the resulting Go struct (multi-name fields expand to several fields); plenc builds "
                  "a codec for every fully modelled top-level struct of the output; a second run changes nothing; -w=false leaves the file "
                  "alone. Malformed tags (or a multi-name field that cannot get unique indexes) => non-zero exit with a message and the file "
-                 "unchanged. Non-trivial = a struct mixing tagged and untagged fields, a multi-name field, or a non-top-level declaration; "
-                 "distinct by case hash."),
-        "jobs": [{"run": "^TestC20$", "shards": 16, "quick_shards": 4, "timeout_quick": 600, "timeout_thorough": 3000}],
+                 "unchanged. Several files in one run (two or three, the later ones often the same layout with other tags so that fields sit at "
+                 "the same source positions): each file ends up exactly as a run on it alone leaves it, up to the first refused file, and the "
+                 "standard output is the single runs' outputs in sequence. Non-trivial = a struct mixing tagged and untagged fields, a "
+                 "multi-name field, or a non-top-level declaration; distinct by case hash."),
+        "jobs": [{"run": "^TestC20(SeveralFiles)?$", "shards": 16, "quick_shards": 4, "timeout_quick": 600, "timeout_thorough": 3000}],
     },
 }
 
